@@ -675,6 +675,18 @@ class Batch:
         self.exe = os.path.join(self.dir, "drv")
         return True
 
+    def build_pkgs(self, which):
+        """`go build` every package directory gocc wrote for each grammar (wherever -o put them); {i: log} for failures"""
+        bad = {}
+
+        def one(i):
+            rc, log = C.sh(["go", "build", "./g%d/..." % i], cwd=self.dir, env=C.GOENV, timeout=600)
+            if rc != 0:
+                bad[i] = log
+        with ThreadPoolExecutor(max_workers=8) as ex:
+            list(ex.map(one, which))
+        return bad
+
     def build_each(self, which):
         """go vet / build each grammar's packages separately; returns {i: log} for failures"""
         bad = {}
